@@ -235,6 +235,7 @@ type Violation struct {
 	Replay   string          `json:"replay"`
 	NoFailingInput bool      `json:"no_failing_input_found"`
 	Note     string          `json:"note,omitempty"`
+	Harness  string          `json:"harness"`
 }
 
 type Result struct {
@@ -614,6 +615,7 @@ func shrinkMismatch(p *Prop, j *Judge, s Spec, tape, verdict string) (Spec, stri
 }
 
 func writeReplay(dir, id string, v Violation) string {
+	v.Harness = id
 	os.MkdirAll(dir, 0o755)
 	b, _ := json.MarshalIndent(v, "", " ")
 	h := sha256.Sum256(b)
